@@ -364,6 +364,9 @@ def write_evidence(ctx, coverage, violations, assumptions=None, level="proof"):
         "obligation_list": [{"name": n, "discharged": ok, "detail": d} for n, ok, d in obl],
     }
     cov.update(coverage)
+    # the obligation counts always come from the obligations actually recorded on this run
+    cov["obligations"] = len(obl)
+    cov["discharged"] = sum(1 for o in obl if o[1])
     cov.setdefault("evaluations", 0)
     cov.setdefault("distinct_nontrivial", 0)
     cov.setdefault("samples", [])
